@@ -23,7 +23,7 @@ from hpack.huffman_table import decode_huffman
 from hpack.exceptions import (HPACKDecodingError, InvalidTableIndexError, InvalidTableSizeError,
                               OversizedHeaderListError)
 
-OP_TIMEOUT = int(os.environ.get('HPACK_VERIF_OP_TIMEOUT', '20'))
+OP_TIMEOUT = int(os.environ.get('HPACK_VERIF_OP_TIMEOUT', '90'))      # wall-clock per operation: generous, the machine may be loaded
 
 
 class OpTimeout(BaseException):
